@@ -1,0 +1,6 @@
+//go:build !verif
+
+package cache
+
+// verifPoint is a no-op without the verif build tag
+func verifPoint(string) {}
